@@ -54,7 +54,9 @@ class Scenario:
         self.idx = idx
         self.iface_name = 'org.verif.c11.C%d' % idx
         self.methods = {}
-        for m in r.sample(['Alpha', 'Beta', 'Gamma', 'Delta'], r.randint(1, 3)):
+        # (Ping and GetManagedObjects are also member names of standard interfaces every object has: a user interface may
+        # declare its own)
+        for m in r.sample(['Alpha', 'Beta', 'Gamma', 'Delta', 'Ping', 'GetManagedObjects'], r.randint(1, 3)):
             si, so = r.choice(SIGS), r.choice(SIGS)
             kind = r.choice(['value', 'value', 'echo', 'raise', 'raise-named', 'deferred', 'deferred-fail'])
             if kind == 'echo' and 'v' in si:
